@@ -252,6 +252,6 @@ fn main() {
             _ => levels(),
         }
     } else {
-        run_all(|i, b| json!({"ev": "reset", "beh": i, "mode": b["mode"]}));
+        run_all(|i, b| json!({"ev": "reset", "beh": i, "mode": b["mode"], "always": b["always"].as_bool().unwrap_or(false)}));
     }
 }
